@@ -1,14 +1,17 @@
 #!/usr/bin/env python3
 """setup step: parse every specification module with SANY (fails fast on a broken spec)."""
-import glob, os, subprocess, sys
+import glob, os, shutil, subprocess, sys, tempfile
 spec = os.path.join(os.path.dirname(os.path.dirname(os.path.abspath(__file__))), 'spec')
 bad = 0
+os.makedirs(os.path.join(os.path.dirname(spec), 'work'), exist_ok=True)
+tmpd = tempfile.mkdtemp(prefix='sany-', dir=os.path.join(os.path.dirname(spec), 'work'))
 for f in sorted(glob.glob(os.path.join(spec, '*.tla')) + glob.glob(os.path.join(spec, 'apalache', '*.tla'))):
-    r = subprocess.run(['java', '-cp', '/opt/veriftools/tla/tla2tools.jar:/opt/veriftools/tla/CommunityModules-deps.jar',
+    r = subprocess.run(['java', '-Djava.io.tmpdir=' + tmpd, '-cp', '/opt/veriftools/tla/tla2tools.jar:/opt/veriftools/tla/CommunityModules-deps.jar',
                         'tla2sany.SANY', f], cwd=spec, stdout=subprocess.PIPE, stderr=subprocess.STDOUT, text=True)
     if r.returncode != 0 or 'Semantic errors' in r.stdout or 'Parse Error' in r.stdout or 'Fatal errors' in r.stdout or '*** Errors' in r.stdout:
         print('SANY failed on', f)
         print(r.stdout[-2000:])
         bad += 1
+shutil.rmtree(tmpd, ignore_errors=True)
 print('sany: %d modules, %d bad' % (len(glob.glob(os.path.join(spec, '*.tla')) + glob.glob(os.path.join(spec, 'apalache', '*.tla'))), bad))
 sys.exit(1 if bad else 0)
